@@ -21,6 +21,11 @@ CHECKS = {
         technique="translation validation, TEAL vs TEAL: SymAVM on the programs emitted under two option settings over one symbolic context, SMT obligation per path pair (verdict, return, effects, user-numbered slots, what each routine leaves on the stack); models replayed concretely",
         text="One recipe compiled under a base setting and under each other (version, scratch_slots, frame_pointers) setting; z3 shows for ALL inputs within the loop/recursion bounds that both emitted programs give the same verdict, return value, ordered effects and final contents of user-numbered scratch slots, and - for pairs differing only in the scratch-slot optimisation - that every routine leaves the same net number of values (and the same top value) when control leaves it. Programs: exhaustive store/load placement family for the optimiser (2 variables, adjacent and non-adjacent loads, main/subroutine/loop/split across a branch, user-numbered, dynamic, MaybeValue temporaries), routine families, control skeletons.",
         note="Trusted: TEAL op semantics (verif/avm), z3. Bounds: loop K, recursion D, byte lengths; program families enumerated to a stated size. The stack clause is checked as net height + top value per routine exit (spilled slots of outer frames legitimately differ between settings)."),
+    "C12": dict(
+        category="translation_validation", design_ref="DESIGN.md 3/C12",
+        technique="translation validation, TEAL vs TEAL: SymAVM on the pseudo-op program and the assembled-constants program over one symbolic context (template constants symbolic); SMT obligation per path pair incl. the value pushed at every constant-load site in execution order; models replayed concretely",
+        text="Each recipe is compiled with assembleConstants off and on (versions 3..10). z3 shows for ALL inputs and template values that, on every path, the k-th constant-load instruction pushes the same value in both programs (int/byte/addr/method pseudo-ops decoded by the independent front-end vs pushint/pushbytes/intc*/bytec* resolved through the emitted intcblock/bytecblock) and that verdict, return value and effects agree. Constant-block indices that do not fit the one-byte immediate are reported. Programs: constant multisets by frequency pattern x magnitude class x byte-literal spelling (utf-8 with escapes, hex, base32 with/without padding, base64, Addr, MethodSignature, enums, Tmpl.Int/Bytes/Addr), equal values under different spellings, the pushint-vs-block boundary, 255/256/257 distinct repeated constants, control skeletons.",
+        note="Trusted: my literal decoders in verif/teal/parse.py (the pseudo-op side), TEAL op semantics, z3. Bounds: the enumerated multisets; loops K."),
     "C16": dict(
         category="other", design_ref="DESIGN.md 3/C16",
         technique="SMT (z3 nonlinear integer arithmetic) Hoare contracts over segments of the emitted WideRatio TEAL at full 64-bit width + whole-program bit-vector equivalence at narrow word widths; models replayed on the emitted code",
